@@ -22,6 +22,7 @@ import (
 	"io"
 	"net/http"
 	"net/http/httputil"
+	"strings"
 	"sync"
 )
 
@@ -86,7 +87,8 @@ func (r *responseWriter) WriteHeader(statusCode int) {
 		}
 		fmt.Fprint(r.writer, "\r\n")
 
-		if r.Header().Get("Transfer-Encoding") == "chunked" {
+		// transfer-coding names are case-insensitive
+		if strings.EqualFold(r.Header().Get("Transfer-Encoding"), "chunked") {
 			r.chunkWriter = httputil.NewChunkedWriter(r.writer)
 		}
 	}
